@@ -29,6 +29,9 @@ pub struct PanicRec {
     pub file: String,
     pub line: u32,
     pub msg: String,
+    /// connection of the last transport call before the panic (tasks switch only inside
+    /// transport and sync calls, so this is the panicking task's connection)
+    pub conn: Option<usize>,
 }
 
 #[derive(Clone, Debug, Default)]
@@ -100,6 +103,7 @@ pub struct State {
     pub clock: u64,
     pub sync_points: u64,
     pub yields_taken: u64,
+    pub last_conn: Option<usize>,
     pub in_process: usize,
     pub reach: BTreeMap<&'static str, u64>,
     // pool engine
@@ -405,6 +409,7 @@ impl Backend for SimBackend {
                     }
                 }
                 st.log("read_call", stream, buf.len() as u64);
+                st.last_conn = Some(stream);
                 let c = &mut st.conns[stream];
                 if let Some(&(_, kind)) = c.faults.read_errs.iter().find(|(i, _)| *i == idx) {
                     c.fired.push(format!("read_err:{}", kind.name()));
@@ -417,6 +422,7 @@ impl Backend for SimBackend {
             let c = &mut st.conns[stream];
             let avail = c.inbound.len() - c.in_pos;
             if avail > 0 && !buf.is_empty() {
+                st.last_conn = Some(stream);
                 let n = avail.min(buf.len());
                 buf[..n].copy_from_slice(&c.inbound[c.in_pos..c.in_pos + n]);
                 c.in_pos += n;
@@ -465,6 +471,7 @@ impl Backend for SimBackend {
             let _g = w.gate.lock().unwrap();
         }
         w.with(|st| {
+            st.last_conn = Some(stream);
             let c = &mut st.conns[stream];
             let p = c.written_total;
             let len = buf.len();
@@ -559,6 +566,7 @@ impl Backend for SimBackend {
         let w = world();
         w.flush();
         w.with(|st| {
+            st.last_conn = Some(stream);
             let c = &mut st.conns[stream];
             c.flush_calls += 1;
             if let Some(kind) = c.faults.flush_err {
@@ -744,26 +752,16 @@ impl World {
                 return;
             }
             ClientMode::Stall { then_send } => {
-                let phase = c.phase;
-                let others: Vec<usize> = self
-                    .sc
-                    .conns
-                    .iter()
-                    .filter(|o| o.phase == phase && o.id != id && !matches!(o.client, ClientMode::Stall { .. }))
-                    .map(|o| o.id)
-                    .collect();
                 self.with(|st| {
                     st.conns[id].fired.push("stall".into());
                     st.reach("stalled_connection");
                 });
-                // wait until every non-stalling connection of the phase has ended
-                self.block_on(CV_MAIN, |st| {
-                    if others.iter().all(|&o| conn_ended(&st.conns[o])) {
-                        Some(())
-                    } else {
-                        None
-                    }
-                });
+                // hold the connection (and with it a worker) for a bounded number of steps: wait
+                // until a read is pending on it, then let the rest of the world run for a while
+                self.block_on(cv_cli(id), |st| if st.conns[id].server_waiting_read || st.conns[id].server_closed { Some(()) } else { None });
+                for _ in 0..24 {
+                    self.switch();
+                }
                 if *then_send {
                     self.deliver(id, req);
                 } else {
